@@ -41,6 +41,13 @@ AREAS = {
                 'random with each other and with unrelated messages; every transfer is labelled from its final event sequence (in order / in order with '
                 'repeats / package missing or out of order / other); non-trivial = tagged (complete, incomplete, missing FLST, duplicates, damaging fault, concurrent)',
     },
+    'pipe': {
+        'shrink_sep': ';', 'head_sep': '| ',
+        'rule': 'real threads: producer -> lifecycle detection -> plugin stage -> [time sort] -> stream filter -> consumer, connected by sync_channel of '
+                'capacity 0 (rendezvous) / 1 / 2 / 3 / 7 / 1000 chosen per channel, sends through sync_sender_send_delay_if_full, 0-2 producer and consumer '
+                'stalls of 1-12 ms at random points, consumer loss after k messages in a quarter of the cases, sorted in a quarter, ECU filter in a third; '
+                'streams of 1-12 (thorough 1-24) messages from the lifecycle generator; each case also runs the same stages with unbounded channels',
+    },
     'dp': {
         'shrink_sep': ';', 'head_sep': None,
         'rule': 'byte streams built from items: well-formed messages (all 32 combinations of the optional header parts, both byte orders, '
@@ -87,6 +94,11 @@ PROPS = {
         'id': 'C17', 'area': 'ft',
         'theorems': ['Props.C17_complete_sound', 'Props.C17_inorder_complete'],
         'n_quick': 5000, 'n_thorough': 200000,
+    },
+    'C13': {
+        'id': 'C13', 'area': 'pipe',
+        'theorems': ['Props.C13_safety', 'Props.C13_complete'],
+        'n_quick': 600, 'n_thorough': 20000,
     },
     'C05': {
         'id': 'C05', 'area': 'lc',
